@@ -63,6 +63,32 @@ pub trait DynPanel {
     fn power_flag(&self) -> Option<bool> {
         None
     }
+    /// the driver object's own memory as machine words (native runs only): lets a monitor look for
+    /// addresses of caller buffers that the driver kept after the lending call returned
+    fn raw_words(&self) -> Vec<usize> {
+        Vec::new()
+    }
+}
+
+/// every aligned machine word of `v`'s in-place representation (padding included, read volatile)
+pub fn words_of<T>(v: &T) -> Vec<usize> {
+    let n = core::mem::size_of_val(v);
+    let w = core::mem::size_of::<usize>();
+    if core::mem::align_of_val(v) < w {
+        return Vec::new();
+    }
+    let p = v as *const T as *const u8;
+    let mut out = Vec::with_capacity(n / w);
+    for i in 0..n / w {
+        let mut x = 0usize;
+        for k in 0..w {
+            // SAFETY: inside the object; volatile byte reads so that padding is read as it lies in memory
+            let b = unsafe { core::ptr::read_volatile(p.add(i * w + k)) };
+            x |= (b as usize) << (8 * k);
+        }
+        out.push(x);
+    }
+    out
 }
 
 thread_local! {
@@ -289,6 +315,9 @@ macro_rules! adapter {
             }
             fn bg_index(&self) -> u32 {
                 $colidx(self.e.background_color())
+            }
+            fn raw_words(&self) -> Vec<usize> {
+                words_of(&self.e)
             }
             fn width(&self) -> u32 {
                 self.e.width()
